@@ -188,6 +188,32 @@ for i in range(1, 19):
     if k not in CLAIMED:
         NOT_YET[k] = "contracts for this property are not built yet in this checkout (see DESIGN.md section 4 for the plan)"
 
+
+# additions of the last session (round 4 of the seeded regressions, path isolation, thorough tier), appended to the texts
+ROUND4 = {
+    'C01': "Round 4: a derived complex result given as instance / full or partial sequence / dict; a 27 kB value of 3-byte characters spanning four transport blocks. Thorough tier: 60 more value vectors generated from VERIF_SEED.",
+    'C02': "Round 4: the same return forms and multi-block value as C01. Thorough tier: 60 generated value vectors.",
+    'C03': "Round 4: the zero / false / empty value of every primitive as HttpRpc result; argument names that begin with words the transport interprets (wsdl_location, xsd_url, the method's name) under all 24 pair orders.",
+    'C04': "Round 4: every primitive model exported by spyne.model.primitive (found by introspection, about 55) x 20 scalar value kinds x 4 dict-document families.",
+    'C05': "Round 4: objects spelled positionally in dict documents; a warm application (the parent class served first).",
+    'C06': "Round 4: url-safe base64 members; every facet-carrying member derived once more without touching a facet (occurrence-only customisation, array item type).",
+    'C07': "Round 4: a class with three choice groups, attribute, wildcard, default and documentation in every generated application. Thorough tier: 40 fresh processes instead of 8.",
+    'C08': "Round 4: digit-restricted Decimals derived again (defect found and fixed); MessagePack's integer text form (C02's proved split) registered here too. Thorough tier: 1500 generated values per type x 3 protocols.",
+    'C09': "Round 4: four classes of raised fault (library class, subclass, subclasses declaring a class-level CODE) in the pipeline and in the symbolic serialiser contracts; the method choosing the output protocol of the request.",
+    'C10': "Round 4: a method name that is not text (two defects found by the thorough tier and fixed). Thorough tier: 12 single-byte edits at every byte position of the valid request of 7 families.",
+    'C11': "Round 4: XML default-namespace spellings of foreign and target names; service classes whose module / class names differ only in a fragment.",
+    'C12': "Round 4: SOAP 1.2, YAML and MessagePack families; lxml re-parenting counts as mutation of the moved (published) element. Thorough tier: 120 switch points per pair and four more families in the interference obligations.",
+    'C13': "Round 4: header values set by the method reach start_response as str; the size limit for every body-carrying family and for SOAP with attachments.",
+    'C14': "Round 4: complete case analysis of the four @rpc keywords for event managers and the event contract under each; NullServer as a third transport (two defects found and fixed: no method_context_closed on a failing call, no method_exception_object for an unknown method).",
+    'C15': "Round 4: operations that share their argument dicts across a history; result contracts for child_attrs(_noexc) and Mandatory(). Thorough tier: all 24389 histories of three operations.",
+    'C16': "Round 4: the class tree grows after it has served a polymorphic exchange (5 protocol families).",
+    'C17': "Round 4: AnyDict and AnyXml slots in the corpus; the schema reader (the package's other XML parser) against external DTD subsets and entities.",
+    'C18': "Round 4: one object returned twice (two return values, array items).",
+}
+ISOLATION = (" Every path runs in a forked child of the worker (no process-wide state of the code under contract is shared "
+             "between paths; native replays start from the freshly loaded state).")
+
+
 def main():
     m = dict(
         version=1,
@@ -202,6 +228,7 @@ def main():
         checks=[], not_applicable=[], notes="exit codes: 0 held, 1 VIOLATION, 2 undecided, 3 checker error")
     for k in sorted(CLAIMED):
         text, note, tech, ref = CLAIMED[k][:4]
+        text = text + ' ' + ROUND4.get(k, '') + ISOLATION
         cat = CLAIMED[k][4] if len(CLAIMED[k]) > 4 else 'proof'
         m['checks'].append(dict(
             property_id=k, quick_cmd="bin/check %s --tier quick" % k, thorough_cmd="bin/check %s --tier thorough" % k,
